@@ -52,9 +52,6 @@ def _precedence_cases():
                         for dflt in TRI:
                             for pyp in TRI:
                                 for fmt in range(3):
-                                    # format only matters when a file layer is set
-                                    if fmt and cfg is None and dflt is None:
-                                        continue
                                     out.append(("E", ri, name_i, cmd, setv, cfg, dflt, pyp, fmt))
     return out
 
@@ -123,9 +120,31 @@ def _b(x):
     return "true" if x else "false"
 
 
-def write_layers(sb, key, cfg, dflt, pyp, fmt):
+SILENT = "md013"  # an unrelated rule: a layer that exists but does not mention the rule under test
+
+
+def write_layers(sb, key, cfg, dflt, pyp, fmt, silent_bits=0):
+    """silent_bits: for layers left unset, bit 0/1/2 = write a pyproject / default file / --config file that
+    only mentions an unrelated rule (the layer exists but is silent on the rule under test)."""
     args = []
     fname, dname, dkind = FORMATS[fmt]
+    if pyp is None and silent_bits & 1:
+        sb.write("pyproject.toml", f"[tool.pymarkdown]\nplugins.{SILENT}.line_length = 100\n")
+    if dflt is None and silent_bits & 2:
+        if dkind == "json":
+            sb.write(dname, json.dumps({"plugins": {SILENT: {"line_length": 100}}}))
+        else:
+            sb.write(dname, f"plugins:\n  {SILENT}:\n    line_length: 100\n")
+    if cfg is None and silent_bits & 4:
+        if fname == "json":
+            sb.write("c.json", json.dumps({"plugins": {SILENT: {"line_length": 100}}}))
+            args += ["--config", "c.json"]
+        elif fname == "yaml":
+            sb.write("c.yaml", f"plugins:\n  {SILENT}:\n    line_length: 100\n")
+            args += ["--config", "c.yaml"]
+        else:
+            sb.write("c.toml", f"[plugins.{SILENT}]\nline_length = 100\n")
+            args += ["--config", "c.toml"]
     if pyp is not None:
         sb.write("pyproject.toml", f"[tool.pymarkdown]\nplugins.{key}.enabled = {_b(pyp)}\n")
     if dflt is not None:
@@ -152,7 +171,8 @@ def run_precedence(ci, case, sb, app, R):
     names = [rid] + rule_names(app, rid)
     key = names[name_i % len(names)]
     sb.clear_files()
-    args = write_layers(sb, key, cfg, dflt, pyp, fmt)
+    silent_bits = (ci * 5 + 3) % 8
+    args = write_layers(sb, key, cfg, dflt, pyp, fmt, silent_bits)
     if setv is not None:
         args += ["--set", f"plugins.{key}.enabled=$!{_b(setv).capitalize()}"]
     if cmd is True:
@@ -161,7 +181,7 @@ def run_precedence(ci, case, sb, app, R):
         args += ["-d", key]
     want = model(cmd, setv, cfg, dflt, pyp, default)
     v = set()
-    detail = {"case": f"E:{ci}", "rule": rid, "addressed_as": key, "layers": {"cmd": cmd, "set": setv, "config": cfg, "default_file": dflt, "pyproject": pyp}, "format": FORMATS[fmt][0], "model_says_enabled": want}
+    detail = {"case": f"E:{ci}", "rule": rid, "addressed_as": key, "layers": {"cmd": cmd, "set": setv, "config": cfg, "default_file": dflt, "pyproject": pyp}, "format": FORMATS[fmt][0], "silent_layers(pyproject,default-file,config)": [bool(silent_bits & 1), bool(silent_bits & 2), bool(silent_bits & 4)], "model_says_enabled": want}
     pattern = "".join("-" if x is None else ("T" if x else "F") for x in (cmd, setv, cfg, dflt, pyp))
     o = app.invoke(args + ["plugins", "list", "--all"])
     R.count("invocations")
